@@ -326,6 +326,72 @@ func init() {
 		if nSucc != 1 {
 			c.Undecided("C34c: expected one branch on the received gotResults value, found %d", nSucc)
 		}
+		// a non-successful results round re-arms the results reader before the loop goes round again
+		isReaderGo := func(in ssa.Instruction) bool {
+			g, ok := in.(*ssa.Go)
+			if !ok {
+				return false
+			}
+			callee := g.Call.StaticCallee()
+			if callee == nil {
+				return false
+			}
+			sendsBool := false
+			ir.EachInstr(callee, func(x ssa.Instruction) {
+				if s, ok := x.(*ssa.Send); ok && strings.HasSuffix(s.Chan.Type().String(), "chan bool") {
+					sendsBool = true
+				}
+			})
+			return sendsBool
+		}
+		for _, b := range g1.Blocks {
+			if len(b.Instrs) == 0 || !loop.Blocks[b] {
+				continue
+			}
+			iff, ok := b.Instrs[len(b.Instrs)-1].(*ssa.If)
+			if !ok {
+				continue
+			}
+			ex, isEx := iff.Cond.(*ssa.Extract)
+			if !isEx || ex.Tuple != ssa.Value(loopSel) || ex.Index < 2 {
+				continue
+			}
+			seen := map[*ssa.BasicBlock]bool{}
+			var escape *ssa.BasicBlock
+			var walk func(x *ssa.BasicBlock)
+			walk = func(x *ssa.BasicBlock) {
+				if seen[x] || escape != nil {
+					return
+				}
+				seen[x] = true
+				if x == loop.Header {
+					escape = x
+					return
+				}
+				for _, in := range x.Instrs {
+					if isReaderGo(in) {
+						return
+					}
+				}
+				for _, s := range x.Succs {
+					if s == loop.Header {
+						escape = x
+						return
+					}
+					walk(s)
+				}
+			}
+			walk(b.Succs[1])
+			if escape == nil {
+				c.OK("C34c/gotResults/failure-round-re-arms-the-results-reader", c.P.InstrPos(iff), "every path from !success back to the select starts the results reader again (or returns)")
+			} else {
+				at := ssa.Instruction(iff)
+				if len(escape.Instrs) > 0 {
+					at = escape.Instrs[len(escape.Instrs)-1]
+				}
+				c.Fail("C34c/gotResults/failure-round-re-arms-the-results-reader", c.P.InstrPos(at), "a path from a non-successful results round returns to the select without restarting the results reader: a success that arrives later is never observed, so the machine can neither emit its final instruction for it nor refrain from a new attempt")
+			}
+		}
 		// after a final send: nothing else, and return
 		taskSendBlocks := map[*ssa.BasicBlock]bool{}
 		for _, s := range sends {
@@ -510,6 +576,68 @@ func init() {
 				c.OK("C34d/"+name+"/isTickerHedge="+want, c.P.InstrPos(s.Instr), "")
 			} else {
 				c.Fail("C34d/"+name+"/isTickerHedge="+want, c.P.InstrPos(s.Instr), "the "+name+" case tells the policy isTickerHedge="+arg)
+			}
+		}
+		c.Rule("C34e the non-retryable flags summarise all recorded errors: in GetResultsSummary (or a helper it calls) the loops that test node errors for IsNonRetryable and protocol errors with IsUnsupportedMethodError / ShouldRetryError run over every recorded error — the loop is left only at its header (range exhausted), never by a break or return after a partial scan — so a permanent error recorded after a retryable one still stops the retries")
+		if grs := c.Fn(rcK + "RelayProcessor.GetResultsSummary"); grs != nil {
+			cands := []*ssa.Function{grs}
+			ir.EachInstr(grs, func(in ssa.Instruction) {
+				if call := ir.CallOf(in); call != nil {
+					if callee := call.StaticCallee(); callee != nil && callee.Blocks != nil && strings.HasPrefix(ir.FuncName(callee), rcK) {
+						cands = append(cands, callee)
+					}
+				}
+			})
+			found := map[string]bool{}
+			for _, f := range cands {
+				ir.EachInstr(f, func(in ssa.Instruction) {
+					what := ""
+					if call := ir.CallOf(in); call != nil {
+						switch ir.CalleeName(call) {
+						case "protocol/chainlib.ShouldRetryError":
+							what = "ShouldRetryError"
+						case "protocol/chainlib.IsUnsupportedMethodError":
+							what = "IsUnsupportedMethodError"
+						}
+					}
+					switch x := in.(type) {
+					case *ssa.FieldAddr:
+						if strings.HasSuffix(ir.FieldKey(x), "RelayResult.IsNonRetryable") {
+							what = "IsNonRetryable"
+						}
+					case *ssa.Field:
+						if strings.HasSuffix(ir.FieldKey(x), "RelayResult.IsNonRetryable") {
+							what = "IsNonRetryable"
+						}
+					}
+					if what == "" || found[what] {
+						return
+					}
+					found[what] = true
+					key := "C34e/GetResultsSummary/" + what + "-scan-is-exhaustive"
+					lp := innermostLoop(f, in.Block())
+					if lp == nil {
+						c.Fail(key, c.P.InstrPos(in), "the "+what+" test is not applied in a loop over the recorded errors")
+						return
+					}
+					for b := range lp.Blocks {
+						if b == lp.Header {
+							continue
+						}
+						for _, s := range b.Succs {
+							if !lp.Blocks[s] {
+								c.Fail(key, c.P.InstrPos(b.Instrs[len(b.Instrs)-1]), "the scan over the recorded errors can stop early (an exit other than range exhaustion): errors recorded later are not examined, so a permanent error after a retryable one no longer sets the flag")
+								return
+							}
+						}
+					}
+					c.OK(key, c.P.InstrPos(in), "loop left only at its header")
+				})
+			}
+			for _, w := range []string{"ShouldRetryError", "IsUnsupportedMethodError", "IsNonRetryable"} {
+				if !found[w] {
+					c.Fail("C34e/GetResultsSummary/"+w+"-scan-is-exhaustive", c.P.Pos(grs.Pos()), "the results summary no longer applies the "+w+" test to the recorded errors")
+				}
 			}
 		}
 		c.NotCovered("the relay processor's side (what counts as a successful result; eligibility of individual errors); timing of the 15ms return-condition probe; that the consumer of the task channel starts exactly one send per instruction")
